@@ -8,6 +8,8 @@ import CCVerif.Lemmas.ParserShapeTop
 import CCVerif.Lemmas.EntryPoints
 import CCVerif.Lemmas.PrinterTotal
 import CCVerif.Lemmas.VCheckTotal
+import CCVerif.Lemmas.EvalPositions
+import CCVerif.Properties.C02
 import CCVerif.Properties.C03
 import CCVerif.Properties.C16
 import CCVerif.Properties.C17
@@ -1208,5 +1210,269 @@ example : ∀ t, parse .ascii (units "F1[B(X1)]") = some t → ArityOK ctxCall t
   obtain ⟨xs, hw⟩ := CCVerif.ParserShape.parse_wfParsed .ascii _ t hp
     (CCVerif.ParserShape.funcsNotLogic_of_check (Γ := ctxCall) (by decide +kernel))
   exact vcheck_not_stuck ctxCall (fun _ => 0) xs t ctxCall_shape ctxCall_arity ctxCall_acyclic hw ht
+
+end CCVerif.C04
+
+/-! ## 8. the evaluator's errors: positions inside the input, `unknownError` only through the fallback
+(`Lemmas/EvalPositionsNorm.lean`, `Lemmas/EvalPositions.lean`)
+
+`reachable t` (`EvalPos.visibleNodes`) = the nodes of `t` that are not below an `ID_LOCAL` node: what a visitor can reach
+(neither `NameCollector` nor `ASTInterpreter` descends into a local; in a parsed tree a local is a leaf, so these are all
+nodes).  The normaliser gives every node it creates the range of a node that was there, and `SubstituteArgs` overwrites
+the ranges of an inlined body with the range of the CALL - only the children of a renamed local keep theirs, and they are
+not reachable.  So nothing is assumed about the stored function trees. -/
+namespace CCVerif.C04
+open CCVerif.Syntax CCVerif.Lexer CCVerif.Parser CCVerif.Types CCVerif.Checker CCVerif.Entry CCVerif.Analysis
+open CCVerif.EvalPos
+
+private theorem rangedL_of_ranged {Plo Phi : Int → Prop} {a : Ast} (h : Ranged Plo Phi a) :
+    RangedL (fun lo _ => Plo lo) a := by
+  induction h with
+  | node hlo _ _ ih => exact .node hlo (fun _ => ih)
+
+private theorem rangedL_of_wfRange (L H : Int) {a : Ast} (h : WfRange a) :
+    L ≤ a.lo → a.hi ≤ H → RangedL (fun lo hi => L ≤ lo ∧ lo < hi ∧ hi ≤ H) a := by
+  induction h with
+  | node hlt _ hin ih =>
+    intro h1 h2
+    simp only [Ast.lo, Ast.hi] at h1 h2
+    refine .node ⟨h1, hlt, h2⟩ (fun _ k hkm => ih k hkm ?_ ?_)
+    · have := (hin k hkm).1; omega
+    · have := (hin k hkm).2; omega
+
+/-- **normalize_ranges_in** (`SyntaxTree::Normalize`, every set of stored function trees, every fuel): in the normalised
+tree of a tree with nested ranges (`WfRange`: every parsed tree, `parse_wfRange`) every reachable node has a non-empty range
+inside the range of the ORIGINAL root - the generated `pr<i>` chains and the renamed pattern local of a tuple declaration,
+the nested quantifiers of an enumerated declaration, and every node of an inlined function body included. -/
+theorem normalize_ranges_in (fs : CCVerif.Norm.Funcs) (fuel : Nat) (t nt : Ast) (hw : WfRange t)
+    (hn : CCVerif.Norm.normalizeTree fs fuel t = some nt) :
+    ∀ n ∈ visibleNodes nt, t.lo ≤ n.lo ∧ n.lo < n.hi ∧ n.hi ≤ t.hi :=
+  rangedL_visible nt (rangedL_normalizeTree fs fuel t nt
+    (rangedL_of_wfRange t.lo t.hi hw (Int.le_refl _) (Int.le_refl _)) hn)
+
+/-- the same for any property of ranges: the reachable nodes of the normalised tree only carry ranges that reachable
+nodes of the original tree carry -/
+theorem normalize_ranges_from_tree (fs : CCVerif.Norm.Funcs) (fuel : Nat) (t nt : Ast) (P : Int → Int → Prop)
+    (ht : ∀ n ∈ visibleNodes t, P n.lo n.hi) (hn : CCVerif.Norm.normalizeTree fs fuel t = some nt) :
+    ∀ n ∈ visibleNodes nt, P n.lo n.hi :=
+  rangedL_visible nt (rangedL_normalizeTree fs fuel t nt (visible_rangedL t ht) hn)
+
+/-- **eval_error_position_in** (`Interpreter::Evaluate` after parsing and type checking = normalise, collect names,
+calculate; EVERY tree, data context, set of stored function trees and fuel): an error result is either the `unknownError`
+fallback, reported at position 0, or one of the six documented `ValueEID`s (`typedOverflow`, `booleanLimit`,
+`globalMissingValue`, `iterationsLimit`, `invalidDebool`, `iterateInfinity`) at a position where a reachable node of the
+tree starts: if those starts lie in `[lo, hi]`, so does the position. -/
+theorem eval_error_position_in (fuel : Nat) (env : CCVerif.Eval.Env) (t : Ast) (lo hi : Int)
+    (hr : ∀ n ∈ visibleNodes t, lo ≤ n.lo ∧ n.lo ≤ hi) (eid : Nat) (pos : Int)
+    (h : (CCVerif.Eval.evaluate fuel env t).1 = .err eid pos) :
+    (eid = CCVerif.Eval.EID.unknownError ∧ pos = 0) ∨ (Doc eid ∧ lo ≤ pos ∧ pos ≤ hi) := by
+  obtain ⟨nt, _, h1 | h1⟩ := evaluate_err (Qp := fun p => lo ≤ p ∧ p ≤ hi) fuel env t (visible_rangedL t hr) eid pos h
+  · exact Or.inl ⟨h1.2.1, h1.2.2⟩
+  · exact Or.inr ⟨h1.2.1, h1.2.2⟩
+
+/-- **unknown_error_iff_quiet_visit**: `Interpreter::Evaluate` answers `unknownError` exactly when one of the two visitors
+(`NameCollector`, `ASTInterpreter`) returned `false` WITHOUT logging (`visitFail … = some .quiet`) - the fallback of
+`ASTInterpreter::Evaluate` / `AfterVisit` - and then at position 0; no visitor logs `unknownError` itself. Every tree. -/
+theorem unknown_error_iff_quiet_visit (fuel : Nat) (env : CCVerif.Eval.Env) (t : Ast) (pos : Int) :
+    (CCVerif.Eval.evaluate fuel env t).1 = .err CCVerif.Eval.EID.unknownError pos ↔
+      pos = 0 ∧ ∃ nt, CCVerif.Norm.normalizeTree env.funcs fuel t = some nt ∧ visitFail fuel env nt = some .quiet := by
+  constructor
+  · intro h
+    obtain ⟨nt, hn, h1 | h1⟩ := evaluate_err (Qp := fun _ => True) fuel env t
+      ((rangedL_true t).mono (fun _ _ _ => trivial)) _ pos h
+    · exact ⟨h1.2.2, nt, hn, h1.1⟩
+    · exact absurd rfl (doc_ne_unknown h1.2.1)
+  · rintro ⟨rfl, nt, hn, hq⟩
+    exact (evaluate_of_visit fuel env t nt hn).1 hq
+
+/-- what `evalEntry` returns, branch by branch -/
+private theorem eval_entry_core (Γ : Ctx) (env : CCVerif.Eval.Env) (fuel : Nat) (hint : Option Syn) (bytes : List Nat)
+    (r : EvalResE) (h : evalEntry Γ env fuel hint bytes = some r) :
+    (bytes = [] ∧ r.errors = [] ∧ r.value = none) ∨
+    ∃ p, parseEntry hint bytes = some p ∧
+      ((r.value = none ∧ ∀ e ∈ r.errors, 0 ≤ e.2 ∧ e.2 ≤ p.units.length) ∨
+       ∃ t v, parse p.syn p.units = some t ∧ p.tree = some t ∧ (CCVerif.Eval.evaluate fuel env t).1 = v ∧ r.value = some v ∧
+         ∃ pre : List Entry.Err, (∀ e ∈ pre, isCritical e.1 = false ∧ 0 ≤ e.2 ∧ e.2 ≤ (p.units.length : Int)) ∧
+           r.errors = pre ++ (match v with | .err eid pos => [(eid, pos)] | _ => [])) := by
+  unfold evalEntry at h
+  split at h
+  · rename_i hemp
+    simp only [Option.some.injEq] at h
+    subst h
+    exact Or.inl ⟨by simpa using hemp, rfl, rfl⟩
+  · split at h
+    · cases h
+    · rename_i p hp
+      refine Or.inr ⟨p, hp, ?_⟩
+      obtain ⟨_, _, hok, hfail, hall⟩ := parse_entry_faithful hint bytes p hp
+      have hpos : ∀ e ∈ p.errors, 0 ≤ e.2 ∧ e.2 ≤ p.units.length := fun e he => (hall e he).2
+      split at h
+      · rename_i t hst htree
+        obtain ⟨herrs, htr, _⟩ := hok hst
+        have hparse : parse p.syn p.units = some t := by rw [← htr, htree]
+        have htp := typecheck_positions_in_input p.syn p.units Γ t hparse
+        simp only [] at h
+        split at h
+        · rename_i τ hout
+          have hacc := accept_no_critical Γ t τ hout
+          have hpre : ∀ e ∈ (check Γ t).errs, isCritical e.1 = false ∧ 0 ≤ e.2 ∧ e.2 ≤ p.units.length :=
+            fun e he => ⟨hacc e he, htp e he⟩
+          simp only [herrs, List.nil_append] at h
+          split at h
+          · rename_i v hv
+            simp only [Option.some.injEq] at h; subst h
+            exact Or.inr ⟨t, _, hparse, htree, hv, rfl, _, hpre, by simp⟩
+          · rename_i b hv
+            simp only [Option.some.injEq] at h; subst h
+            exact Or.inr ⟨t, _, hparse, htree, hv, rfl, _, hpre, by simp⟩
+          · rename_i eid pos hv
+            split at h
+            · simp only [Option.some.injEq] at h; subst h
+              exact Or.inr ⟨t, _, hparse, htree, hv, rfl, _, hpre, rfl⟩
+            · simp only [Option.some.injEq] at h; subst h
+              exact Or.inl ⟨rfl, fun e he => (hpre e he).2⟩
+          · simp only [Option.some.injEq] at h; subst h
+            exact Or.inl ⟨rfl, fun e he => (hpre e he).2⟩
+          · simp only [Option.some.injEq] at h; subst h
+            exact Or.inl ⟨rfl, fun e he => (hpre e he).2⟩
+        · simp only [Option.some.injEq] at h; subst h
+          exact Or.inl ⟨rfl, fun e he => htp e (by simpa [herrs] using he)⟩
+        · simp only [Option.some.injEq] at h; subst h
+          exact Or.inl ⟨rfl, fun e he => htp e (by simpa [herrs] using he)⟩
+      · simp only [Option.some.injEq] at h; subst h
+        exact Or.inl ⟨rfl, hpos⟩
+      · simp only [Option.some.injEq] at h; subst h
+        exact Or.inl ⟨rfl, hpos⟩
+
+/-- **eval_entry_positions** (`Interpreter::Evaluate(text, hint)`; every hint, every byte string inside the lexer model,
+every type context, data context, set of stored function trees and fuel): EVERY entry of the error log - the parser's, the
+type auditor's and now the evaluator's - is positioned in `[0, length of the text in units]`; more precisely the evaluator's
+entry is `unknownError` at 0 or a documented `ValueEID` at the start of a node: `0 ≤ pos < length`. -/
+theorem eval_entry_positions (Γ : Ctx) (env : CCVerif.Eval.Env) (fuel : Nat) (hint : Option Syn) (bytes : List Nat)
+    (r : EvalResE) (p : ParseRes) (h : evalEntry Γ env fuel hint bytes = some r) (hp : parseEntry hint bytes = some p) :
+    (∀ e ∈ r.errors, 0 ≤ e.2 ∧ e.2 ≤ p.units.length) ∧
+    (∀ eid pos, r.value = some (.err eid pos) →
+      (eid = CCVerif.Eval.EID.unknownError ∧ pos = 0) ∨ (Doc eid ∧ 0 ≤ pos ∧ pos + 1 ≤ p.units.length)) := by
+  rcases eval_entry_core Γ env fuel hint bytes r h with ⟨_, he, hv⟩ | ⟨p', hp', hc⟩
+  · rw [he, hv]; exact ⟨by simp, by simp⟩
+  · rw [hp] at hp'
+    simp only [Option.some.injEq] at hp'
+    subst hp'
+    rcases hc with ⟨hv, hpos⟩ | ⟨t, v, hparse, _, hev, hv, pre, hpre, herr⟩
+    · rw [hv]; exact ⟨hpos, by simp⟩
+    · have key : ∀ eid pos, v = .err eid pos →
+          (eid = CCVerif.Eval.EID.unknownError ∧ pos = 0) ∨ (Doc eid ∧ 0 ≤ pos ∧ pos + 1 ≤ p.units.length) := by
+        intro eid pos hve
+        rw [hve] at hev
+        obtain ⟨nt, _, h1 | h1⟩ := evaluate_err (Qp := fun q => 0 ≤ q ∧ q + 1 ≤ (p.units.length : Int)) fuel env t
+          (rangedL_of_ranged (parse_ranged_strict p.syn p.units t hparse)) eid pos hev
+        · exact Or.inl ⟨h1.2.1, h1.2.2⟩
+        · exact Or.inr ⟨h1.2.1, h1.2.2⟩
+      refine ⟨?_, ?_⟩
+      · intro e he
+        rw [herr] at he
+        rcases List.mem_append.1 he with he | he
+        · exact (hpre e he).2
+        · cases v with
+          | err eid pos =>
+            rcases List.mem_singleton.1 he with rfl
+            rcases key eid pos rfl with ⟨_, rfl⟩ | ⟨_, h1, h2⟩
+            · exact ⟨Int.le_refl 0, by simp⟩
+            · exact ⟨h1, by simp only; omega⟩
+          | _ => simp at he
+      · intro eid pos hve
+        rw [hv] at hve
+        simp only [Option.some.injEq] at hve
+        exact key eid pos hve
+
+/-- **unknown_error_only_fallback** (`Interpreter::Evaluate(text, hint)`, same generality): when the evaluation of an accepted
+text ends with an error `(eid, pos)`, then `eid` is `unknownError` EXACTLY when a visitor returned `false` without logging
+(the fallback branch), the position then being 0; otherwise `eid` is a documented `ValueEID` that the visitor logged itself.
+The evaluator's entry is the last one of the log and no entry before it is critical - so none is `unknownError` (0x8A00).
+NOT covered: that the parser's / type auditor's own error codes (`ParseEID` 0x84xx, `SemanticEID` 0x88xx, 0x8203) differ
+from 0x8A00 when the text is REJECTED (read off the enums, not proved). -/
+theorem unknown_error_only_fallback (Γ : Ctx) (env : CCVerif.Eval.Env) (fuel : Nat) (hint : Option Syn) (bytes : List Nat)
+    (r : EvalResE) (h : evalEntry Γ env fuel hint bytes = some r) :
+    (∀ eid pos, r.value = some (.err eid pos) →
+      ∃ p t nt, parseEntry hint bytes = some p ∧ parse p.syn p.units = some t ∧
+        CCVerif.Norm.normalizeTree env.funcs fuel t = some nt ∧
+        ((eid = CCVerif.Eval.EID.unknownError ∧ pos = 0 ∧ visitFail fuel env nt = some .quiet) ∨
+         (Doc eid ∧ eid ≠ CCVerif.Eval.EID.unknownError ∧ visitFail fuel env nt = some (.err eid pos)))) ∧
+    (∀ v, r.value = some v → ∃ pre : List Entry.Err,
+      r.errors = pre ++ (match v with | .err eid pos => [(eid, pos)] | _ => []) ∧
+      ∀ e ∈ pre, e.1 ≠ CCVerif.Eval.EID.unknownError) := by
+  rcases eval_entry_core Γ env fuel hint bytes r h with ⟨_, _, hv⟩ | ⟨p, hp, hc⟩
+  · rw [hv]; exact ⟨by simp, by simp⟩
+  · rcases hc with ⟨hv, _⟩ | ⟨t, v, hparse, _, hev, hv, pre, hpre, herr⟩
+    · rw [hv]; exact ⟨by simp, by simp⟩
+    · refine ⟨?_, ?_⟩
+      · intro eid pos hve
+        rw [hv] at hve
+        simp only [Option.some.injEq] at hve
+        rw [hve] at hev
+        obtain ⟨nt, hn, h1 | h1⟩ := evaluate_err (Qp := fun _ => True) fuel env t
+          ((rangedL_true t).mono (fun _ _ _ => trivial)) eid pos hev
+        · exact ⟨p, t, nt, hp, hparse, hn, Or.inl ⟨h1.2.1, h1.2.2, h1.1⟩⟩
+        · exact ⟨p, t, nt, hp, hparse, hn, Or.inr ⟨h1.2.1, doc_ne_unknown h1.2.1, h1.1⟩⟩
+      · intro v' hv'
+        rw [hv] at hv'
+        simp only [Option.some.injEq] at hv'
+        subst hv'
+        refine ⟨pre, herr, fun e he hu => ?_⟩
+        have := (hpre e he).1
+        rw [hu] at this
+        revert this; decide
+
+/-- **unknown_error_never_on_fragments** (corollary of C02's progress theorems): when the parsed tree of an accepted text lies
+in one of the fragments on which evaluation is proved never to fault - stage 8 (`Typed8`: integers, sets, tuples,
+quantifiers, `D{}`, `R{}`, `I{}`, tuple patterns, filters), stage 7 / 7n (calls of stored term functions) - the evaluator's
+answer is never `unknownError`, whatever the fuel.  A function / structure DEFINITION evaluated directly is outside these
+fragments and does answer `unknownError` (recorded finding C01/C02-definition-unknown-error; example below). -/
+theorem unknown_error_never_on_fragments (Γ : Ctx) (env : CCVerif.Eval.Env) (fuel : Nat) (hint : Option Syn) (bytes : List Nat)
+    (r : EvalResE) (p : ParseRes) (t : Ast) (τ : CCVerif.Eval.ExprTy) (h : evalEntry Γ env fuel hint bytes = some r)
+    (hp : parseEntry hint bytes = some p) (ht : p.tree = some t)
+    (hT : CCVerif.Eval.Typed8 env t τ ∨ CCVerif.Eval.Typed7 env t τ ∨ CCVerif.Eval.Typed7n env t τ) :
+    ∀ pos, r.value ≠ some (.err CCVerif.Eval.EID.unknownError pos) := by
+  intro pos hv
+  have hsound : CCVerif.Eval.Sound (CCVerif.Eval.evaluate fuel env t).1 τ := by
+    rcases hT with hT | hT | hT
+    · exact CCVerif.Eval.progress_preservation_partial8 env t τ hT fuel
+    · exact CCVerif.Eval.progress_preservation_partial7 env t τ hT fuel
+    · exact CCVerif.Eval.progress_preservation_partial7n env t τ hT fuel
+  rcases eval_entry_core Γ env fuel hint bytes r h with ⟨_, _, hv'⟩ | ⟨p', hp', hc⟩
+  · rw [hv'] at hv; cases hv
+  · rw [hp] at hp'
+    simp only [Option.some.injEq] at hp'
+    subst hp'
+    rcases hc with ⟨hv', _⟩ | ⟨t', v, _, ht', hev, hv', _⟩
+    · rw [hv'] at hv; cases hv
+    · rw [ht] at ht'
+      simp only [Option.some.injEq] at ht'
+      subst ht'
+      rw [hv'] at hv
+      simp only [Option.some.injEq] at hv
+      rw [hv] at hev
+      rw [hev] at hsound
+      revert hsound
+      simp only [CCVerif.Eval.Sound, CCVerif.Eval.Documented]
+      decide
+
+/-! ### non-vacuity -/
+
+/-- `∀(a,b)∈X1×X1 a=b` (16 code points): the normalised tree has the renamed pattern local (range of the pattern, 1..6) and
+the generated `pr1` / `pr2` nodes (ranges of the replaced locals) - all inside `[0, 16]` -/
+example : ((parse .math (units "∀(a,b)∈X1×X1 a=b")).bind (CCVerif.Norm.normalizeTree [] 20)).map
+      (fun nt => (visibleNodes nt).map (fun n => (n.id, n.lo, n.hi))) =
+    some [(.FORALL, 0, 16), (.ID_LOCAL, 1, 6), (.DECART, 7, 12), (.ID_GLOBAL, 7, 9), (.ID_GLOBAL, 10, 12), (.EQUAL, 13, 16),
+      (.SMALLPR, 13, 14), (.ID_LOCAL, 13, 14), (.SMALLPR, 15, 16), (.ID_LOCAL, 15, 16)] := by decide +kernel
+
+/-- `1=debool({1,2})`: accepted, the evaluator logs `invalidDebool` (0x8A05) at 2 - strictly inside the text;
+a definition evaluated directly: accepted, `unknownError` (0x8A00) at 0 (the recorded finding - `ViGlobalDeclaration` of the
+name collector returns false without an error) -/
+example : (evalEntry CCVerif.C03.ctxK {} 100 none (units "1=debool({1,2})")).map (fun r => (r.status, r.errors)) =
+      some (.failed, [(0x8A05, 2)]) ∧
+    (evalEntry CCVerif.C03.ctxK {} 100 (some .math) (units "F1:==[a" ++ [0xE2, 0x88, 0x88] ++ units "X1] a")).map
+      (fun r => (r.status, r.errors)) = some (.failed, [(0x8A00, 0)]) := by
+  decide +kernel
 
 end CCVerif.C04
